@@ -61,10 +61,54 @@ theorem precheckB_iff_validB : ∀ (a b c d e f g h i j k l m n o : Bool),
     isOk (precheckB .repaired a b c d e f g h i j k l m n o) = validB a b c d e f g h i j k l m n o := by
   decide +kernel
 
+/-! ### seed sequences: `fresh_stochasticity(i) = False` freezes the randomness of iteration i-1, and nothing else does -/
+
+theorem keyOf_le (f : Nat → Bool) : ∀ i, keyOf f i ≤ i := by
+  intro i
+  induction i with
+  | zero => simp [keyOf]
+  | succ i ih =>
+    simp only [keyOf]
+    split
+    · exact Nat.le_refl _
+    · omega
+
+/-- **iteration i+1 draws with the same seeds as iteration i iff `fresh_stochasticity(i+1)` is False** (the code's
+    duplicate-SeedSequence bookkeeping; for every stochasticity pattern and every number of samples) -/
+theorem seeds_equal_iff (f : Nat → Bool) (spawns : Nat → Nat) (i : Nat) :
+    seedsOf .duplicate f spawns (i + 1) = seedsOf .duplicate f spawns i ↔ f (i + 1) = false := by
+  have hle := keyOf_le f i
+  have hc : ctrAtPush .duplicate f spawns i = 0 := by cases i <;> rfl
+  simp only [seedsOf, keyOf, ctrAtPush, hc]
+  cases hf : f (i + 1)
+  · simp
+  · simp; omega
+
+/-- reusing the previous iteration's OBJECT instead of a duplicate breaks this as soon as that iteration sampled: the
+    "frozen" iteration silently gets new seeds (the seeded defect; `decide`d witness: 1 sample pair, not fresh at 1) -/
+theorem shared_object_not_frozen :
+    seedsOf .shared (fun i => i != 1) (fun _ => 1) 1 ≠ seedsOf .shared (fun i => i != 1) (fun _ => 1) 0 := by decide
+
+theorem seedsRepeatFrom_spec (c : Config) : ∀ len j,
+    seedsRepeatFrom .duplicate c j len = (iterList (j + 1) len).map (fun i => !c.fresh i) := by
+  intro len
+  induction len with
+  | zero => intro j; rfl
+  | succ len ih =>
+    intro j
+    have h := seeds_equal_iff c.fresh c.spawns j
+    simp only [seedsRepeatFrom, ih, iterList, List.range_succ_eq_map, List.map_cons, List.map_map]
+    congr 1
+    · simp only [h, Nat.zero_add]
+      cases c.fresh (j + 1) <;> simp
+    · apply List.map_congr_left
+      intro k _
+      simp [Nat.add_assoc, Nat.add_comm 1]
+
 theorem precheck_of_valid (c : Config) (h : valid c = true) : precheck .repaired c = .ok () := by
   have := precheckB_iff_validB c.exportIsDict c.exportHasPickle c.initialIndexIsInt c.strategyValid c.outDir c.resume
     (decide (c.initialIndex < c.total)) (c.transitionsArity == 1) (c.inspectArity == 1 || c.inspectArity == 2)
-    (c.terminateArity == 1) c.targetScalar c.sanity c.typesOk (c.controllerNone && c.nSamples != 0) c.fresh0
+    (c.terminateArity == 1) c.targetScalar c.sanity c.typesOk c.ctrlBad (c.fresh 0)
   unfold valid at h
   rw [h] at this
   unfold precheck
@@ -78,7 +122,7 @@ theorem valid_accepted (c : Config) (h : valid c = true) : accepts .repaired c =
   have hi : c.initialIndex < c.total := by
     simp only [valid, validB, Bool.and_eq_true, decide_eq_true_eq] at h
     exact h.1.1.1.1.1.1.2
-  simp only [accepts, precheck_of_valid c h, expectedShape, loop_iterations, loop_balanced]
+  simp only [accepts, precheck_of_valid c h, expectedShape, loop_iterations, loop_balanced, seedsRepeatFrom_spec]
   have e : c.initialIndex + (c.total - c.initialIndex) = c.total := by omega
   have hv : (Version.repaired == Version.asFound) = false := by decide
   cases hd : c.dryRun <;> cases ht : c.terminateAt <;> simp [e, hv]
@@ -89,7 +133,7 @@ theorem invalid_rejected_kind (c : Config) (h : valid c = false) : ∃ e, accept
     intro hp
     have := precheckB_iff_validB c.exportIsDict c.exportHasPickle c.initialIndexIsInt c.strategyValid c.outDir c.resume
       (decide (c.initialIndex < c.total)) (c.transitionsArity == 1) (c.inspectArity == 1 || c.inspectArity == 2)
-      (c.terminateArity == 1) c.targetScalar c.sanity c.typesOk (c.controllerNone && c.nSamples != 0) c.fresh0
+      (c.terminateArity == 1) c.targetScalar c.sanity c.typesOk c.ctrlBad (c.fresh 0)
     unfold precheck at hp
     unfold valid at h
     rw [hp, h] at this
@@ -115,24 +159,34 @@ theorem rng_stack_balanced (c : Config) (s : Shape) (h : accepts .repaired c = .
     injection h with h
     rw [← h]; exact loop_balanced c _ _
 
+/-- one field of the shape of an accepted call (none = rejected) -/
+def field {α : Type} (f : Shape → α) (v : Version) (c : Config) : Option α :=
+  match accepts v c with
+  | .ok s => some (f s)
+  | .error _ => none
+
 /-- non-vacuity: a valid configuration with output directory, MAP iterations, early termination and final position -/
-example : valid { total := 4, initialIndex := 1, outDir := true, nSamples := 0, controllerNone := true,
-                  terminateAt := some 2, returnFinal := true, inspectArity := 2 } = true ∧
-    accepts .repaired { total := 4, initialIndex := 1, outDir := true, nSamples := 0, controllerNone := true,
-                        terminateAt := some 2, returnFinal := true, inspectArity := 2 } =
-      .ok { iterations := 2, nResult := 1, arity := 2, writesFiles := true, stackDelta := 0 } := by decide
+example :
+    let c : Config := { total := 4, initialIndex := 1, outDir := true, nSamplesAt := [3, 2, 0, 1],
+                        ctrlNoneAt := [false, false, true, false], terminateAt := some 2, returnFinal := true,
+                        inspectArity := 2, hasInspect := true, hasTerminate := true, hasTransitions := true,
+                        freshAt := [true, true, false, true] }
+    valid c = true ∧ field (·.iterations) .repaired c = some 2 ∧ field (·.nResult) .repaired c = some 1 ∧
+      field (·.arity) .repaired c = some 2 ∧ field (·.stackDelta) .repaired c = some 0 ∧
+      field (·.seedsRepeat) .repaired c = some [true] ∧ field (·.inspectCalls) .repaired c = some [1, 2] ∧
+      field (·.transitionCalls) .repaired c = some [1, 2] := by decide
 
 /-! **The driver as found violates the property** (documented witnesses, replayed on the real code by the check) -/
 
 /-- `dry_run=True`: every iteration pushes a seed sequence and `continue`s past `pop_sseq()` -/
 theorem asFound_dry_run_unbalanced :
-    accepts .asFound { total := 2, initialIndex := 0, dryRun := true } =
-      .ok { iterations := 0, nResult := 1, arity := 1, writesFiles := false, stackDelta := 2 } := by decide
+    field (·.stackDelta) .asFound { total := 2, initialIndex := 0, dryRun := true } = some 2 ∧
+    field (·.iterations) .asFound { total := 2, initialIndex := 0, dryRun := true } = some 0 := by decide
 
 /-- `terminate_callback` returning True: `break` skips `pop_sseq()` -/
 theorem asFound_terminate_unbalanced :
-    accepts .asFound { total := 3, initialIndex := 0, terminateAt := some 1 } =
-      .ok { iterations := 2, nResult := 2, arity := 1, writesFiles := false, stackDelta := 1 } := by decide
+    field (·.stackDelta) .asFound { total := 3, initialIndex := 0, terminateAt := some 1 } = some 1 ∧
+    field (·.iterations) .asFound { total := 3, initialIndex := 0, terminateAt := some 1 } = some 2 := by decide
 
 /-- `sanity_checks=False` with an output directory: the non-resume branch uses the loop variable of the skipped loop -/
 theorem asFound_sanity_false_unbound :
@@ -142,7 +196,7 @@ theorem asFound_sanity_false_unbound :
 
 /-- `output_directory=None` after an earlier call with an output directory: files are still written (into the old one) -/
 theorem asFound_stale_output_directory :
-    accepts .asFound { total := 2, initialIndex := 0, prevOutDir := true } =
-      .ok { iterations := 2, nResult := 2, arity := 1, writesFiles := true, stackDelta := 0 } := by decide
+    field (·.writesFiles) .asFound { total := 2, initialIndex := 0, prevOutDir := true } = some true ∧
+    field (·.writesFiles) .repaired { total := 2, initialIndex := 0, prevOutDir := true } = some false := by decide
 
 end NiftyVerif.C27
